@@ -1005,8 +1005,11 @@ def formal_name(rng):
 
     def nested_items(d):
         out = ""
-        if rng.random() < 0.5:
+        k = rng.random()
+        if k < 0.35:
             out += "S" + seq() + "_" + targs(d)
+        elif k < 0.6:
+            out += "S" + rng.choice("tabsiod") + targs(d)
         for _ in range(rng.randrange(0 if out else 1, 4)):
             out += (src(ident()) if rng.random() < 0.85 else "S" + seq() + "_") + targs(d)
         return out
@@ -1014,20 +1017,35 @@ def formal_name(rng):
     def ty(d=0):
         q = "".join(rng.choice("rVKPROCG") for _ in range(rng.choice([0, 0, 0, 1, 1, 2, 3])))
         k = rng.random()
-        if k < 0.35:
+        if k < 0.3:
             return q + rng.choice(BUILTIN)
-        if k < 0.6:
+        if k < 0.5:
             return q + "S" + seq() + "_" + targs(d)
-        if k < 0.8:
+        if k < 0.6:
+            return q + "S" + rng.choice("absiod") + targs(d)
+        if k < 0.7:
+            return q + "St" + src(ident()) + targs(d)
+        if k < 0.82:
             return q + src(ident()) + targs(d)
         return q + "N" + nested_items(d) + "E"
+    if rng.random() < 0.12:                              # _Z St <source-name> [<targs>] <type>*
+        i = ident()
+        return ("_ZSt" + src(i) + targs(0) + "".join(ty() for _ in range(rng.choice([0, 1, 2, 3])))).encode(), ("std::" + i).encode()
     quals = rng.choice(["", "", "", "K", "V", "R", "O", "KR", "KO", "VK", "VKO"])
     scopes = [ident() for _ in range(rng.randrange(1, 5))]
     enc = ""
+    ABBR = {"t": "std", "a": "std::allocator", "b": "std::basic_string", "s": "std::basic_string<>", "i": "std::basic_istream",
+            "o": "std::basic_ostream", "d": "std::basic_iostream"}
+    names = []
+    if rng.random() < 0.3:
+        c = rng.choice("ttttabsiod")
+        enc += "S" + c + targs(0)
+        names.append(ABBR[c])
     for sc in scopes:
         enc += src(sc) + targs(0)
+        names.append(sc)
     k = rng.random()
-    name = "::".join(scopes)
+    name = "::".join(names)
     if k < 0.15:
         enc += "C" + rng.choice("123")
         name += "::" + scopes[-1]
